@@ -45,6 +45,9 @@ Definition verdict_area (w : list pt) (impl_area : Q) (impl_cw : bool) : nat :=
 Definition verdict_poly (w1 w2 : list pt) (impl : bool) : nat :=
   if Bool.eqb (poly_intersect_closed w1 w2) impl then 0%nat else 1%nat.
 
+Definition verdict_poly2 (c1 c2 : bool) (w1 w2 : list pt) (impl : bool) : nat :=
+  if Bool.eqb (poly_intersect c1 c2 w1 w2) impl then 0%nat else 1%nat.
+
 Definition verdict_closest (p a b : pt) (impl_sq : Q) : nat :=
   if Qeq_bool (dot (sub b a) (sub b a)) 0 then 2%nat
   else if Qle_bool (Qabs (closest2 p a b - impl_sq)) (cmp_eps * (1 + Qabs impl_sq)) then 0%nat else 1%nat.
